@@ -28,6 +28,7 @@ def omission_sets(fn_hir, c=None):
     for m in ms:
         hs = []
         other = False
+        m_resolved = m
         def heads(p):
             res = []
             for alt in pat_alternatives(p):
@@ -47,7 +48,54 @@ def omission_sets(fn_hir, c=None):
                     other = True
         if hs and not other and set(hs) <= {"Null", "Opt", "Reserved", "Empty"} and len(hs) >= 2:
             out.append(sorted(hs))
+            UNRESOLVED_CHECK.append(m_resolved)
     return out
+
+
+UNRESOLVED_CHECK = []
+
+
+def resolved_scrutinee(fn_hir, m, c=None):
+    """is the type tested by omission-set match `m` the result of resolving type names (trace_type / trace_type_with_depth / unroll)?
+    Looks at the statement (or arm guard) the match sits in: the call must be part of the same expression chain, or the match lives in a
+    small predicate helper whose body contains the call."""
+    TR = r"(TypeEnv::trace_type(_with_depth)?|unroll_type)$"
+
+    def has_trace(node):
+        return any(x.get("k") in ("call", "mcall") and re.search(TR, callee(x) or "") for x in walk(node))
+    # the helper-body case
+    if not any(x is m for x in walk(fn_hir["body"])):
+        if c is not None:
+            for k_, hh in c.hir.items():
+                if hh.get("body") is not None and any(x is m for x in walk(hh["body"])):
+                    return has_trace(hh["body"])
+        return False
+    # innermost statement / guard / let initialiser containing the match
+    best = None
+    for n in walk(fn_hir["body"]):
+        cands = []
+        if n.get("k") in ("slet", "semi"):
+            cands.append(n)
+        if n.get("k") == "match":
+            cands.extend(a["guard"] for a in n["arms"] if isinstance(a.get("guard"), dict))
+        if n.get("k") == "if":
+            cands.append(n["c"])
+        for cnd in cands:
+            if any(x is m for x in walk(cnd)):
+                if best is None or sum(1 for _ in walk(cnd)) < sum(1 for _ in walk(best)):
+                    best = cnd
+    if best is None:
+        return False
+    if has_trace(best):
+        return True
+    # `let t = env.trace_type(..)?; … match t.as_ref() {..}`: the scrutinee is a local initialised by the call
+    sc = unblock(m["scrut"])
+    root = (expr_path(sc.get("recv")) if sc.get("k") == "mcall" else expr_path(sc)) or ""
+    root = root.split(".")[0]
+    for st in nodes(fn_hir["body"], "slet"):
+        if (st.get("pat") or {}).get("k") == "bind" and st["pat"]["n"] == root and st.get("init") is not None and has_trace(st["init"]):
+            return True
+    return False
 
 
 def run(chk, facts, tier, only=None):
@@ -67,7 +115,15 @@ def run(chk, facts, tier, only=None):
         ]
         for name, h, floor in sites:
             chk.analysed(h["key"])
+            del UNRESOLVED_CHECK[:]
             sets = omission_sets(h, c)
+            if re.search(r"subtype_|annotate_", h["key"]):
+                unres = [m for m in UNRESOLVED_CHECK if not resolved_scrutinee(h, m, c)]
+                chk.expect(not unres, f"omission-set:{name.split(' ')[0]}:on-resolved-type",
+                           f"{name}: the test `is it opt / null / reserved?` is made on a type that was not resolved through the environment "
+                           f"(line {unres[0].get('ln') if unres else ''}): a field or argument whose type is a *name* for an optional type would be treated as required, "
+                           f"unlike at the sibling sites", where=f"{h['span']['file']}:{unres[0].get('ln')}" if unres else None,
+                           ok_detail="trace_type(..) feeds every omission test")
             chk.expect(len(sets) >= floor and all(s == OMIT for s in sets), f"omission-set:{name.split(' ')[0]}",
                        f"{name}: a missing value is tolerated for exactly opt, null and reserved (spec: `null <: <datatype'>`); "
                        f"this site singles out {sets} (expected {floor} set(s) equal to {OMIT})",
